@@ -311,9 +311,11 @@ func (p goTypes) cvtStruct(typ *types.Struct) (raw *types.Struct, cvt bool) {
 	}()
 	n := typ.NumFields()
 	flds := make([]*types.Var, n)
+	tags := make([]string, n)
 	needcvt := false
 	for i := 0; i < n; i++ {
 		f := typ.Field(i)
+		tags[i] = typ.Tag(i)
 		if t, cvt := p.cvtType(f.Type()); cvt {
 			f = types.NewField(f.Pos(), f.Pkg(), f.Name(), t, f.Anonymous())
 			needcvt = true
@@ -321,7 +323,7 @@ func (p goTypes) cvtStruct(typ *types.Struct) (raw *types.Struct, cvt bool) {
 		flds[i] = f
 	}
 	if needcvt {
-		return types.NewStruct(flds, nil), true
+		return types.NewStruct(flds, tags), true
 	}
 	return typ, false
 }
